@@ -27,12 +27,24 @@ DECIDED = [
     "R-C03-MAINT: Redis maintenance rejects an in-flight message only when now - taken_at > execution_timeout, and runs on connect and disconnect",
     "R-C03-SHUTDOWN (pause protocol): stopping pauses consumers that may already be paused: pause is idempotent, the pause lock is only passed through by readers, RabbitMQ lowers the flag it raised (C09's pause rules reused)",
     "R-C03-UNCHANGED (limit exit): the message held when the message budget stops the loop is rejected and its permit released (C10's gate reused)",
+    "R-C03-SHUTDOWN / R-C03-FINISH (round 6): no asyncio.shield where stopping relies on cancellation; finish() returns only what the consumer still holds (C14 reused); RabbitMQ finish(): stop accepting, cancel the subscription, drain and reject known tags",
+    "R-C03-AWAITED: in the files this property is anchored in, no bare statement calls a coroutine function (the operation would never run)",
 ]
 NOT_DECIDED = ["the timing bound of run() (graceful period + slack)", "interleavings of the runner's own tasks (rejects still in flight when run() returns)", "process-death semantics of the servers"]
 ASSUMPTIONS = ["asyncio: awaits are the only cancellation points", "a cancelled awaiter cancels the awaited child task"]
 
 
 def run(ctx: Ctx) -> None:
+    from .shared import every_operation_awaited
+
+    every_operation_awaited(ctx, "R-C03-AWAITED")  # in the files this property is anchored in, no asynchronous operation is created and dropped
+    from .brokers import redis_defaults_only_when_missing
+
+    redis_defaults_only_when_missing(ctx, "R-C03-MAINT")
+    from .brokers import rabbit_delivery_details, rabbit_lifecycle
+
+    rabbit_lifecycle(ctx, "R-C03-FINISH")  # RabbitMQ finish(): stop accepting, cancel the subscription, drain and reject what is buffered
+    rabbit_delivery_details(ctx, "R-C03-FINISH")
     inmem_transfer_atomic(ctx, ops=("ack", "nack", "reject", "requeue"), rule_t="R-C01-TRANSFER", rule_a="R-C01-ATOMIC")
     redis_txn_rules(ctx, ops=("ack", "nack", "reject", "requeue"), rule_t="R-C01-TRANSFER", rule_a="R-C01-ATOMIC")
     rabbit_rules(ctx)
@@ -40,6 +52,13 @@ def run(ctx: Ctx) -> None:
     catch(ctx, "R-C02-CATCH")  # a handler that swallows CancelledError makes the forced cancellation ineffective
     handoff(ctx)
     finish(ctx)
+    from .C14 import finish_own
+
+    with ctx.as_rule("R-C03-FINISH"):
+        finish_own(ctx, "R-C03-FINISH")  # a stopping consumer returns only what it still holds: not a message it gave back earlier and another worker has taken since
+    from .shared import no_shield
+
+    no_shield(ctx, "R-C03-SHUTDOWN", ("repid/_processor.py", "repid/_runner.py", "repid/worker.py", "repid/message.py", "repid/dependencies/message_dependency.py", "repid/connections/redis/consumer.py", "repid/connections/redis/message_broker.py", "repid/connections/rabbitmq/consumer.py", "repid/connections/rabbitmq/message_broker.py", "repid/connections/in_memory/consumer.py", "repid/connections/in_memory/message_broker.py"), "stopping relies on cancellation: a shielded take keeps polling after finish() and takes a message that is handed to nobody; a shielded report requeues a message the runner has already rejected")
     shutdown(ctx)
     unchanged(ctx)
     maintenance(ctx, "R-C03-MAINT")
@@ -297,7 +316,7 @@ def shutdown(ctx: Ctx, rule="R-C03-SHUTDOWN") -> None:
     h = sh.nested.get("signal_handler") or (list(sh.nested.values())[0] if len(sh.nested) == 1 else None)
     ctx.require(h is not None, f"{sh.qualname}: signal handler closure not found")
     c = [x for x in ast.walk(h.node) if isinstance(x, ast.Call) and (dotted(x.func) or "").endswith("sync_stop_wait_and_cancel")]
-    ctx.check(len(c) == 1 and dotted(c[0].args[0]) == "self.graceful_shutdown_time", rule, h, "signal -> stop, wait the graceful period, cancel", "sync_stop_wait_and_cancel(graceful_shutdown_time)",
+    ctx.check(len(c) == 1 and dotted(C.arg(c[0], 0, "wait_for")) == "self.graceful_shutdown_time", rule, h, "signal -> stop, wait the graceful period, cancel", "sync_stop_wait_and_cancel(graceful_shutdown_time)",
               "the signal handler does not start the two-phase shutdown with the graceful period", instance="signal handler")
     # the cancel branch of _process_with_event returns the message
     p = ctx.func(f"{C.RUNNER}._process_with_event")
